@@ -744,12 +744,12 @@ def run_rot(c, Pm):
         if prob is None:
             # Matrix3 -> Quaternion -> Matrix3
             q = r.to_quaternion()
-            back = observe(q.to_matrix3())
-            prob = compare(back, obs['vals'], mask, rtol=1e-7, atol=1e-7) and \
-                'Matrix3 -> Quaternion -> Matrix3: ' + str(compare(back, obs['vals'], mask, rtol=1e-7, atol=1e-7))
+            qn = observe(q.norm())
+            prob = compare(qn, np.ones(s), mask, rtol=1e-9) and 'from_matrix3 is not a unit quaternion'
             if prob is None:
-                qn = observe(q.norm())
-                prob = compare(qn, np.ones(s), mask, rtol=1e-9) and 'from_matrix3 is not a unit quaternion'
+                back = observe(q.to_matrix3())
+                pr = compare(back, obs['vals'], mask, rtol=1e-7, atol=1e-7)
+                prob = pr and 'Matrix3 -> Quaternion -> Matrix3: ' + pr
         return prob, {'impl': str(r)[:300]}, bool(np.any(mask)) or op == 'euler1'
     if op == 'twovec':
         a, b = build(c['a'], Pm.Vector3), build(c['b'], Pm.Vector3)
